@@ -532,6 +532,9 @@ class Evaluator:
             return ('seq', [self.alloc(st, 'tuple', list(t), node) for t in zip(*seqs)])
         if name == 'reversed' and len(args) == 1:
             return ('seq', list(reversed(self.sequence(st, args[0], node))))
+        if name == 'bool' and len(args) == 1 and not kwargs:
+            t = self.truth(st, args[0])
+            return ('const', t) if t is not None else ('unknown', 'bool')
         if name == 'isinstance':
             return ('unknown', 'isinstance')
         if name == 'getattr' and len(args) >= 2:
